@@ -121,6 +121,10 @@ Val(S, ty, var, depth) ==
 (* ------------------------------------------------------------------ default literals *)
 \* A literal is pre-resolved by lib/schemas.py: ints carry 64-bit limbs `l`, strings their bytes,
 \* doubles their IEEE bytes `bits`, enum members and constant references their value.
+RECURSIVE DedupSeq(_, _)
+DedupSeq(sq, acc) == IF sq = <<>> THEN acc
+                     ELSE IF \E q \in 1..Len(acc) : acc[q] = Head(sq) THEN DedupSeq(Tail(sq), acc)
+                     ELSE DedupSeq(Tail(sq), Append(acc, Head(sq)))
 RECURSIVE Lit(_, _, _)
 RECURSIVE LitFields(_, _, _, _)
 RECURSIVE DefaultFields(_, _, _, _)
@@ -133,7 +137,9 @@ Lit(S, ty, l) ==
     [] k = "i64" -> Leaf("i64", l.l)
     [] k = "double" -> Leaf("double", l.bits)
     [] k \in {"string", "binary"} -> Leaf("binary", l.bytes)
-    [] k \in {"list", "set"} -> [k |-> k, et |-> WT(S, ElemTy(S, ty)), es |-> [j \in 1..Len(l.list) |-> Lit(S, ElemTy(S, ty), l.list[j])]]
+    [] k = "list" -> [k |-> k, et |-> WT(S, ElemTy(S, ty)), es |-> [j \in 1..Len(l.list) |-> Lit(S, ElemTy(S, ty), l.list[j])]]
+    \* a set literal that repeats an element denotes the set: each element once
+    [] k = "set" -> [k |-> k, et |-> WT(S, ElemTy(S, ty)), es |-> DedupSeq([j \in 1..Len(l.list) |-> Lit(S, ElemTy(S, ty), l.list[j])], <<>>)]
     [] k = "map" -> Map(WT(S, KeyTy(S, ty)), WT(S, ValTy(S, ty)),
                         [j \in 1..Len(l.map) |-> <<Lit(S, KeyTy(S, ty), l.map[j][1]), Lit(S, ValTy(S, ty), l.map[j][2])>>])
     \* a struct literal {"field": value, ..}: the listed fields hold the given values, every other field what it holds in
